@@ -78,14 +78,24 @@ struct WantFlow {
     dst_mac: Want<String>,
 }
 
-fn want_of(fields: &[&MField], v9: bool) -> WantFlow {
+/// One decoded field of a record as the LIBRARY reports it (through its pub structures): the
+/// projection is judged against what was decoded, not against what should have been decoded
+/// (that is C04 / C05's business).
+#[derive(Debug, Clone)]
+struct PF {
+    typ: u16,
+    ent: bool,
+    val: FV,
+}
+
+fn want_of(fields: &[&PF], v9: bool) -> WantFlow {
     let mut w = WantFlow::default();
     for f in fields {
-        if f.spec.ent.is_some() {
+        if f.ent {
             continue;
         }
-        let Ok(v) = &f.val else { continue };
-        match (f.spec.typ, v) {
+        let v = &f.val;
+        match (f.typ, v) {
             (8, FV::Ip4(a)) => w.src4.vals.push(IpAddr::V4(Ipv4Addr::from(*a))),
             (12, FV::Ip4(a)) => w.dst4.vals.push(IpAddr::V4(Ipv4Addr::from(*a))),
             (27, FV::Ip6(a)) => w.src6.vals.push(IpAddr::V6(Ipv6Addr::from(*a))),
@@ -252,43 +262,47 @@ pub fn check(sim: &mut Sim, d: &Delivery, w: &Walk, r: &[NetflowPacket], mut bas
                     sim.find("C13-version-timestamp", d.ev, format!("common view of element {}: version/timestamp {} / {} instead of {} / {}", i, c.version, c.timestamp, ver, ts));
                     return;
                 }
-                // model projection (conformant deliveries only)
-                if !w.fully_known() {
-                    continue;
-                }
-                let Some(offs) = &offs else { continue };
-                let Some(pk) = w.pkts.iter().find(|p| p.start == offs[i]) else { continue };
-                let sets = match &pk.body {
-                    MBody::V9 { sets, .. } | MBody::Ipfix { sets, .. } => sets,
-                    _ => continue,
-                };
-                let proto = if v9 { Proto::V9 } else { Proto::Ipfix };
-                let mut recs: Vec<&MRec> = Vec::new();
-                let mut skip = false;
-                for s in sets {
-                    if let MSetKind::Data { recs: rs, def, tid, .. } = &s.kind {
-                        if def.is_options() {
-                            continue;
+                // records as the library decoded them
+                let _ = (&offs, w);
+                let mut recs: Vec<Vec<PF>> = Vec::new();
+                match el {
+                    NetflowPacket::V9(x) => {
+                        for fs in &x.flowsets {
+                            if let netflow_parser::variable_versions::v9::FlowSetBody::Data(dt) = &fs.body {
+                                for r in &dt.fields {
+                                    recs.push(r.values().map(|(ft, v)| PF { typ: *ft as u16, ent: false, val: crate::flat::fv_of(v) }).collect());
+                                }
+                            }
                         }
-                        let _ = (proto, tid);
-                        if s.tainted {
-                            skip = true;
-                        }
-                        if rs.iter().any(|r| r.fields.iter().any(|f| f.val.is_err())) {
-                            skip = true;
-                        }
-                        recs.extend(rs.iter());
                     }
+                    NetflowPacket::IPFix(x) => {
+                        use netflow_parser::variable_versions::ipfix_lookup::IPFixField;
+                        for fs in &x.flowsets {
+                            if let netflow_parser::variable_versions::ipfix::FlowSetBody::Data(dt) = &fs.body {
+                                // the parser emits one single-entry map per field, keyed by the
+                                // field's position in the template: position 0 starts a record
+                                let mut first = true;
+                                for m in &dt.fields {
+                                    let starts = m.keys().next().map(|k| *k == 0).unwrap_or(true);
+                                    if starts || first {
+                                        recs.push(Vec::new());
+                                        first = false;
+                                    }
+                                    for (ft, v) in m.values() {
+                                        recs.last_mut().unwrap().push(PF { typ: *ft as u16, ent: matches!(ft, IPFixField::Enterprise | IPFixField::Unknown), val: crate::flat::fv_of(v) });
+                                    }
+                                }
+                            }
+                        }
+                    }
+                    _ => unreachable!(),
                 }
-                if skip {
-                    sim.stats.probe("skipped_packet_with_listed_decode_finding");
-                    continue;
-                }
+                let pk_start = offs.as_ref().map(|o| o[i]).unwrap_or(0);
                 let got: Vec<Flow> = c.flowsets.iter().map(of_lib).collect();
                 // correct shape: one flow per record
                 let per_record = got.len() == recs.len()
                     && recs.iter().zip(got.iter()).all(|(r, g)| {
-                        let fs: Vec<&MField> = r.fields.iter().collect();
+                        let fs: Vec<&PF> = r.iter().collect();
                         flow_matches(&want_of(&fs, v9), g).is_none()
                     });
                 if per_record {
@@ -300,12 +314,12 @@ pub fn check(sim: &mut Sim, d: &Delivery, w: &Walk, r: &[NetflowPacket], mut bas
                 }
                 // listed structural defect (IPFIX): one "flow" per field
                 if !v9 {
-                    let fields: Vec<&MField> = recs.iter().flat_map(|r| r.fields.iter()).collect();
+                    let fields: Vec<&PF> = recs.iter().flat_map(|r| r.iter()).collect();
                     let per_field = got.len() == fields.len()
                         && fields.iter().zip(got.iter()).all(|(f, g)| flow_matches(&want_of(&[*f], false), g).is_none());
                     if per_field {
                         sim.stats.nontrivial = true;
-                        sim.find("KF-C13-ipfix-one-flow-per-field", d.ev, format!("IPFIX message at offset {}: {} records with {} fields yield {} common flows, one per field", pk.start, recs.len(), fields.len(), got.len()));
+                        sim.find("KF-C13-ipfix-one-flow-per-field", d.ev, format!("IPFIX message at offset {}: {} records with {} fields yield {} common flows, one per field", pk_start, recs.len(), fields.len(), got.len()));
                         continue;
                     }
                 }
@@ -313,14 +327,14 @@ pub fn check(sim: &mut Sim, d: &Delivery, w: &Walk, r: &[NetflowPacket], mut bas
                 let mut what = format!("{} flows for {} data records", got.len(), recs.len());
                 if got.len() == recs.len() {
                     for (k, (r, g)) in recs.iter().zip(got.iter()).enumerate() {
-                        let fs: Vec<&MField> = r.fields.iter().collect();
+                        let fs: Vec<&PF> = r.iter().collect();
                         if let Some(attr) = flow_matches(&want_of(&fs, v9), g) {
                             what = format!("flow {}: attribute {} does not equal the decoded field of that record (flow {:?})", k, attr, g);
                             break;
                         }
                     }
                 }
-                sim.find("C13-projection-mismatch", d.ev, format!("common view of the v{} packet at offset {}: {}", ver, pk.start, what));
+                sim.find("C13-projection-mismatch", d.ev, format!("common view of the v{} packet at offset {}: {}", ver, pk_start, what));
                 return;
             }
         }
